@@ -59,6 +59,9 @@ pub open spec fn repr(f: Fp) -> Seq<u8> { le_bytes(fv(f), 24) }
 pub assume_specification[<Fp as PrimeField>::to_repr](f: &Fp) -> (r: FpRepr)
     ensures r.0@ == repr(*f);
 
+pub assume_specification[<Fp as Field>::is_zero_vartime](f: &Fp) -> (r: bool)
+    ensures r == (fv(*f) == 0);
+
 pub assume_specification[<Fp as Clone>::clone](f: &Fp) -> (r: Fp)
     ensures r == *f;
 
